@@ -60,7 +60,7 @@ def cases(rng, tier):
         absent = [a for a in htgen.absent_keys(rng, keys, dt, mod)]
         # the ends of the key dtype (and 0) as NON-keys: values an implementation may use as a marker
         absent += [a for a in (int(np.iinfo(dt).min), int(np.iinfo(dt).max), 0, -1) if a not in keys and np.iinfo(dt).min <= a <= np.iinfo(dt).max and a not in absent]
-        init = rng.choice(["default", "default", 0, 5, 0.5, "array", "array", "farray"])
+        init = rng.choice(["default", "default", 0, 5, 1, -1, 0.5, "array", "array", "farray"])      # (1, -1, 0: values a truth test or a sign confuses)
         if init == "array":
             init = [rng.randint(0, 9) for _ in keys]
         elif init == "farray":       # per-key pseudo-counts that are not integers
@@ -82,7 +82,7 @@ def cases(rng, tier):
             b = [rng.choice(keys) for _ in range(rng.randint(3, 7))] + ([rng.choice(absent)] if rng.random() < 0.4 else [])
             rng.shuffle(b)
             batches.append(b)
-        out.append({"keys": keys, "kdtype": rng.choice(["int64", "int32", "uint8"]), "mod": m, "init": rng.choice(["default", 0, 3]), "batches": batches, "pseed": rng.randint(0, 999)})
+        out.append({"keys": keys, "kdtype": rng.choice(["int64", "int32", "uint8"]), "mod": m, "init": rng.choice(["default", 0, 3, 1, -1]), "batches": batches, "pseed": rng.randint(0, 999)})
     # NARROW key dtypes with MANY buckets (hashes close to the dtype's maximum: arithmetic on them in the key dtype wraps)
     for _ in range(150 if tier == "quick" else 2000):
         dt = rng.choice(["int8", "uint8", "int16", "uint16"])
@@ -96,7 +96,7 @@ def cases(rng, tier):
         pool = [k for k in range(max(int(info.min), lo - 5), min(int(info.max), lo + 4 * n + 5) + 1) if k not in set(keys)]
         absent = rng.sample(pool, min(len(pool), 12)) + [a for a in (int(info.min), int(info.max), 0) if a not in keys]
         batches = [_batch(rng, keys, absent) for _ in range(rng.randint(1, 3))] + [list(keys) * rng.randint(1, 3)]
-        out.append({"keys": keys, "kdtype": dt, "mod": mod, "init": rng.choice(["default", 0, 2]), "batches": batches, "pseed": rng.randint(0, 999)})
+        out.append({"keys": keys, "kdtype": dt, "mod": mod, "init": rng.choice(["default", 0, 2, 1, -1]), "batches": batches, "pseed": rng.randint(0, 999)})
     # BIG batches (tens of thousands of samples in one call): long stretches without any key followed by keys, uneven repetition,
     # non-keys smaller and larger than the keys, non-keys in empty and in occupied buckets
     plan = [(70000, "nokey_then_keys"), (12000, "mixed"), (rng.choice([65536, 131072, 10001]), rng.choice(["nokey_then_keys", "mixed"]))]
